@@ -271,7 +271,7 @@ pub fn parse_file_internal(context: &ParseContext) -> Result<(), Error> {
 
     let include_paths = RefCell::new(include_paths);
 
-    let context = ParseContext {
+    let inner_context = ParseContext {
         current_path,
         include_paths,
         common_context,
@@ -280,7 +280,13 @@ pub fn parse_file_internal(context: &ParseContext) -> Result<(), Error> {
         messages,
     };
 
-    parse(source.as_str(), &context)?;
+    parse(source.as_str(), &inner_context)?;
+
+    // paths added by .includepath of this file stay known to the caller
+    context
+        .include_paths
+        .borrow_mut()
+        .extend(inner_context.include_paths.borrow().iter().cloned());
 
     Ok(())
 }
